@@ -2,6 +2,7 @@ import io
 import logging
 import multiprocessing
 import os
+import pickle
 import sys
 import traceback
 from abc import ABC, abstractmethod
@@ -59,6 +60,24 @@ def _keep_fasta_pairs_together(chunks: Iterator[memoryview]) -> Iterator[bytes]:
             leftover = data[split:]
     if leftover:
         yield leftover
+
+
+def _picklable_exception(e: Exception) -> Exception:
+    """
+    Return e if it can be sent over a multiprocessing connection, otherwise
+    a RuntimeError with the same message.
+
+    Exceptions defined in some extension modules cannot be pickled (for
+    example igzip_lib.IsalError, raised for a corrupt gzip stream).
+    Trying to send such an exception would raise within the exception
+    handler, the process would die without having reported anything and
+    the receiving side would wait forever.
+    """
+    try:
+        pickle.loads(pickle.dumps(e))
+    except Exception:
+        return RuntimeError(f"{type(e).__name__}: {e}")
+    return e
 
 
 class ReaderProcess(mpctx_Process):
@@ -126,7 +145,9 @@ class ReaderProcess(mpctx_Process):
                     file_format = detect_file_format(files[0])
                 except Exception as e:
                     self._file_format_connection.send(-2)
-                    self._file_format_connection.send((e, traceback.format_exc()))
+                    self._file_format_connection.send(
+                        (_picklable_exception(e), traceback.format_exc())
+                    )
                     raise
                 self._file_format_connection.send(file_format)
                 for index, chunks in enumerate(self._read_chunks(*files)):
@@ -137,6 +158,7 @@ class ReaderProcess(mpctx_Process):
             # This code is rarely executed because there is little that can go wrong
             # splitting up the input into chunks. FASTQ/FASTA parsing problems
             # are caught within the workers.
+            e = _picklable_exception(e)
             for connection in self.connections:
                 connection.send(-2)
                 connection.send((e, traceback.format_exc()))
